@@ -17,6 +17,9 @@ fn rust_collision(s: &ASchema) -> bool {
     s.types.iter().any(|t| matches!(t, AType::Enum { values, .. } if values.iter().any(|v| v == "self") && values.iter().any(|v| v == "Self")))
 }
 
+/// name of the fixed operation with input-object variables (generated with `skip_serializing_none` off)
+const INPUTS_OP: &str = "InputsWithNullableMembers";
+
 /// (schema, document, enums the variant MUST declare extern - `None`: a random subset)
 fn fixed_pairs() -> Vec<(ASchema, ADoc, Option<Vec<&'static str>>)> {
     let f = |n: &str, t: ATy| AField { name: n.into(), ty: t, dep: None };
@@ -66,8 +69,43 @@ fn fixed_pairs() -> Vec<(ASchema, ADoc, Option<Vec<&'static str>>)> {
         }],
         frags: vec![],
     };
+    // struct-only operation whose variables are input objects with nullable members (incl. a recursive one and a list): the
+    // variant derives `Default` on the variables as well; `None` members must still be sent as `null` (seeded change C09-I)
+    let input_schema = ASchema {
+        types: vec![
+            AType::Input {
+                name: "Filter".into(),
+                one_of: false,
+                fields: vec![
+                    ("name".into(), ATy::named("String")),
+                    ("min".into(), ATy::named("Int")),
+                    ("key".into(), nn(ATy::named("ID"))),
+                    ("tags".into(), ATy::List(Box::new(nn(ATy::named("String"))))),
+                    ("sub".into(), ATy::named("Filter")),
+                ],
+            },
+            obj("Query", vec![f("count", ATy::named("Int"))]),
+        ],
+        query: Some("Query".into()),
+        mutation: None,
+        subscription: None,
+    };
+    let input_doc = ADoc {
+        ops: vec![AOp {
+            kind: "query",
+            name: INPUTS_OP.into(),
+            vars: vec![
+                AVar { name: "filter".into(), ty: ATy::named("Filter"), default: None },
+                AVar { name: "filters".into(), ty: ATy::List(Box::new(nn(ATy::named("Filter")))), default: None },
+                AVar { name: "n".into(), ty: ATy::named("Int"), default: None },
+            ],
+            sels: vec![fld("count", vec![])],
+        }],
+        frags: vec![],
+    };
     vec![
         (schema, doc, None),
+        (input_schema, input_doc, None),
         (enum_schema.clone(), enum_doc.clone(), Some(vec!["Alpha"])),
         (enum_schema.clone(), enum_doc.clone(), Some(vec!["Beta"])),
         (enum_schema, enum_doc, Some(vec!["Alpha", "Gamma"])),
@@ -120,7 +158,8 @@ pub fn run(a: &Args) -> i32 {
         let no_serialize = doc.has_recursive_fragment();
         let mut base = Opts::harness();
         base.other_variant = rng.chance(40);
-        base.skip_none = forced_externs.is_some() || rng.chance(40);
+        let inputs_pair = is_fixed && doc.ops.first().map_or(false, |o| o.name == INPUTS_OP);
+        base.skip_none = forced_externs.is_some() || (!inputs_pair && rng.chance(40));
         if no_serialize {
             base.response_derives = Some("Debug,PartialEq".into());
         }
@@ -165,6 +204,9 @@ pub fn run(a: &Args) -> i32 {
         if structs_only && !no_serialize && (is_fixed || rng.chance(70)) {
             let cur = var.response_derives.clone().unwrap_or_default();
             var.response_derives = Some(if cur.is_empty() { "Default".to_string() } else { format!("{},Default", cur) });
+            // ... and on the variables / input objects (custom scalars are `String` aliases here, so every member type has a default)
+            let curv = var.variables_derives.clone().unwrap_or_default();
+            var.variables_derives = Some(if curv.is_empty() { "Default".to_string() } else { format!("{},Default", curv) });
             changed += 1;
             rep.count("option:derive-default");
         }
